@@ -419,6 +419,16 @@ fn merge_array_into_array8(dst_array8: &mut Array8, dst_lg_k: u8, src_mode: &Mod
     }
 }
 
+/// Whether an array-mode sketch is flagged out-of-order (its HIP accumulator is not valid).
+fn is_array_out_of_order(mode: &Mode) -> bool {
+    match mode {
+        Mode::Array8(src) => src.is_out_of_order(),
+        Mode::Array6(src) => src.is_out_of_order(),
+        Mode::Array4(src) => src.is_out_of_order(),
+        Mode::List { .. } | Mode::Set { .. } => false,
+    }
+}
+
 /// Extract HIP accumulator from an array mode
 fn get_array_hip_accum(mode: &Mode) -> f64 {
     match mode {
@@ -596,7 +606,13 @@ fn copy_or_downsample(src_mode: &Mode, src_lg_k: u8, tgt_lg_k: u8) -> Array8 {
             }
         }
 
-        result.set_hip_accum(src_hip);
+        if is_array_out_of_order(src_mode) {
+            // The source has no valid HIP accumulator: the copy must fall back to the
+            // composite estimator too instead of reporting the (zeroed) accumulator.
+            result.rebuild_estimator_from_registers();
+        } else {
+            result.set_hip_accum(src_hip);
+        }
         result
     } else {
         // Downsample from src to tgt
